@@ -323,7 +323,8 @@ impl<'t, 'c> Gen<'t, 'c> {
             // two classes may share a policy so that per-policy grouping is exercised
             let pol_seed = if i == 2 && self.t.flag() { 150 } else { 150 + i as u8 };
             let name = match self.t.pick(3) {
-                0 => STRINGS[i % 3].as_bytes().to_vec(),
+                // text names, two of which could be read as hex digits: a name is the bytes of its text wherever it is written
+                0 => ["ABC", "MYTOKEN", "tx3", "beef", "2025"][(i + pol_seed as usize) % 5].as_bytes().to_vec(),
                 1 => fixed_bytes(90 + i as u8, 1 + self.t.pick(8)),
                 _ => vec![],
             };
@@ -1307,7 +1308,16 @@ impl<'t, 'c> Gen<'t, 'c> {
         let mut utxos: Vec<Vec<GUtxo>> = vec![];
         let mut serial = 0usize;
         for i in 0..n_inputs {
-            let name = self.name(INPUT_NAMES[i]);
+            let mut name = self.name(INPUT_NAMES[i]);
+            // one time in twelve the first input carries the name of a party in lower case: the IR then has a
+            // value parameter and an input of one name, which are two things (arguments never fill inputs)
+            if i == 0 && self.t.chance(1, 12) {
+                let cands: Vec<String> = self.prog.parties.iter().filter(|p| p.to_lowercase() != **p).map(|p| p.to_lowercase()).collect();
+                if !cands.is_empty() {
+                    name = cands[self.t.pick(cands.len())].clone();
+                    self.mark("input_named_like_a_party");
+                }
+            }
             let datum_ty = if !record_types.is_empty() && self.t.chance(1, 2) {
                 Some(record_types[self.t.pick(record_types.len())])
             } else {
@@ -1440,6 +1450,12 @@ impl<'t, 'c> Gen<'t, 'c> {
             }
             if c.from.is_none() || self.t.chance(1, 4) {
                 c.r#ref = Some(self.gen_ref());
+            }
+            // the block may be written twice: every collateral block goes by the same query name, is handed the
+            // same UTxOs, and the collateral inputs form a set
+            c.repeat = self.t.chance(1, 6);
+            if c.repeat {
+                self.mark("collateral_block_written_twice");
             }
             self.cur.collateral = Some(c);
             // what is handed to the block is what the transaction names, tokens or not (which UTxOs qualify is
